@@ -41,7 +41,7 @@ import (
 // flag order: pub_rtmp sub_rtmp sub_httpflv sub_httpts pub_rtsp sub_rtsp hls_m3u8
 var flagNames = []string{"pub_rtmp", "sub_rtmp", "sub_httpflv", "sub_httpts", "pub_rtsp", "sub_rtsp", "hls_m3u8"}
 
-var protos = []string{"rtmp-pub", "rtmp-sub", "flv-sub", "wsflv-sub", "ts-sub", "rtsp-pub", "rtsp-sub", "hls"}
+var protos = []string{"rtmp-pub", "rtmp-sub", "flv-sub", "wsflv-sub", "ts-sub", "wsts-sub", "rtsp-pub", "rtsp-sub", "wsrtsp-sub", "hls"}
 
 func protoFlag(p string) int {
 	switch p {
@@ -51,11 +51,11 @@ func protoFlag(p string) int {
 		return 1
 	case "flv-sub", "wsflv-sub":
 		return 2
-	case "ts-sub":
+	case "ts-sub", "wsts-sub":
 		return 3
 	case "rtsp-pub":
 		return 4
-	case "rtsp-sub":
+	case "rtsp-sub", "wsrtsp-sub":
 		return 5
 	case "hls":
 		return 6
@@ -317,9 +317,10 @@ func runAuth(c AuthCase) *pbt.Violation {
 	}
 	var v *pbt.Violation
 	switch c.Proto {
-	case "rtmp-sub", "flv-sub", "wsflv-sub", "ts-sub", "rtsp-sub":
+	case "rtmp-sub", "flv-sub", "wsflv-sub", "ts-sub", "wsts-sub", "rtsp-sub", "wsrtsp-sub":
 		s := inproc.New(inproc.Config{RtmpGopNum: 1, FlvGopNum: 1, TsGopNum: 1, SimpleAuth: c.conf()})
 		defer s.Close()
+		defer closeWsConns(s)
 		v = c.runSub(s)
 		if v == nil {
 			v = s.PanicViolation()
@@ -410,12 +411,41 @@ func (c AuthCase) runSub(s *inproc.Server) *pbt.Violation {
 		case sub.Conn.EOFPending():
 			outcome, how = outRejected, "connection closed without body bytes"
 		}
-	case "rtsp-sub":
-		conn := s.RtspConn()
+	case "wsts-sub":
+		sub := newRawSub(s, "/live/"+c.Stream+".ts"+qs, true)
+		addr = sub.Conn.LocalAddr().String()
+		more()
+		n, hdr, eof := sub.wait(lalclient.DeliverTimeout)
+		switch {
+		case n > 0:
+			outcome, how = outAdmitted, fmt.Sprintf("%d bytes of WebSocket frames received", n)
+		case eof:
+			outcome, how = outRejected, fmt.Sprintf("connection closed without a frame (response header %q)", hdr)
+		}
+	case "rtsp-sub", "wsrtsp-sub":
+		conn, rc := rtspClient(s, c.Proto == "wsrtsp-sub")
 		addr = conn.LocalAddr().String()
-		_ = conn.SetReadDeadline(time.Now().Add(lalclient.DeliverTimeout))
-		rc := rtspref.NewClient(conn)
-		r, err := rc.Describe("rtsp://127.0.0.1:5544/live/" + c.Stream + qs)
+		uri := "rtsp://127.0.0.1:5544/live/" + c.Stream + qs
+		r, err := rc.Describe(uri)
+		if err != nil || r.Status != 200 || !strings.Contains(string(r.Body), "m=") {
+			if !isTimeout(err) && c.flagOn() {
+				// refused: the client goes on to SETUP / PLAY all the same, on this connection if it is still
+				// there and on a new one without DESCRIBE (lal consults the secret only in the DESCRIBE callback)
+				for round := 0; round < 2; round++ {
+					n, trace := playAnyway(conn, rc, uri, more)
+					if n < 0 {
+						return inconclusive("rtsp-play-anyway")
+					}
+					if n > 0 && c.expect() == "reject" {
+						return pbt.V("simple-auth/rejected-request-got-media", "%s request %q was refused at DESCRIBE (%v) but the client went on to SETUP / PLAY (%s) and received %d RTP frames", c.Proto, qs, err, trace, n)
+					}
+					if l, what := listed(s, c.Stream, conn.LocalAddr().String()); l && c.expect() == "reject" {
+						return pbt.V("simple-auth/rejected-request-listed", "%s request %q was refused at DESCRIBE but after SETUP / PLAY (%s) the stat API lists it: %s", c.Proto, qs, trace, what)
+					}
+					conn, rc = rtspClient(s, c.Proto == "wsrtsp-sub")
+				}
+			}
+		}
 		switch {
 		case err == nil && r.Status == 200 && strings.Contains(string(r.Body), "m="):
 			outcome, how = outAdmitted, "DESCRIBE answered 200 with an SDP"
